@@ -378,13 +378,14 @@ def mkColl (s : State K) (hs : List Nat) (copyFields : Bool) (dt : Option DType)
       linkColl r.1 r.2 g dt
     else linkColl s hs g dt
 
-/-- `FieldCollection.copy` (collection.py:552-572) -/
+/-- `FieldCollection.copy` (collection.py:552-580): the members are copied, the constructor is
+called with `dtype` or, by default, the dtype of the collection -/
 def copyColl (s : State K) (o : Obj) (dt : Option DType) : Except Err (State K) :=
   match getObjs s o.members with
   | .error e => .error e
   | .ok os =>
     let r := copyEach s os
-    linkColl r.1 r.2 o.grid dt
+    linkColl r.1 r.2 o.grid (some (dt.getD (s.store.dtOf o.view.buf)))
 
 /-- `h.copy(dtype=dt)` for any field object; the result is the *last* object of the new state -/
 def copyAny (s : State K) (o : Obj) (dt : Option DType) : Except Err (State K) :=
